@@ -41,6 +41,7 @@ Proof.
   destruct i; simpl.
   - right. exists content, [], is. repeat split; [constructor|]. rewrite running_log. reflexivity.
   - left. apply stopped_silent.
+  - left. apply stopped_silent.
   - destruct IH as [H|[content [pre [post [Heq [Hpre Hlog]]]]]]; [left; exact H|].
     right. exists content, (MEvent ty id :: pre), post. subst is. repeat split; [|exact Hlog].
     constructor; [split; [discriminate | intros c; discriminate] | exact Hpre].
@@ -84,6 +85,7 @@ Proof.
   destruct i; simpl.
   - exfalso. eapply Hi. reflexivity.
   - apply stopped_silent.
+  - apply stopped_silent.
   - apply IH, Hrest.
   - apply IH, Hrest.
 Qed.
@@ -101,6 +103,7 @@ Fixpoint after_ready (l : list minput) : list minput :=
   match l with
   | [] => []
   | MReady _ :: post => post
+  | MReadyFail :: _ => []
   | MDone :: _ => []
   | _ :: l' => after_ready l'
   end.
@@ -121,4 +124,41 @@ Proof.
     destruct (is_prefix_refl (map (fun e : etype * N => CbEvent (fst e) (snd e)) (received MRunning is))) as [H|H];
       [rewrite H; reflexivity | rewrite Hni in H; discriminate].
   - rewrite stopped_silent. reflexivity.
+  - rewrite stopped_silent. reflexivity.
+Qed.
+
+(* a failed listing at readiness (the cache has stopped): no callback at all,
+   whatever else arrives *)
+Theorem failed_listing_no_callbacks pre post :
+  Forall (fun i => forall c, i <> MReady c) pre -> mrun MWaitReady (pre ++ MReadyFail :: post) = [].
+Proof.
+  intros H. induction pre as [|i pre IH]; simpl.
+  - apply stopped_silent.
+  - inversion H as [|? ? Hi Hrest]; subst. destruct i; simpl.
+    + exfalso. eapply Hi. reflexivity.
+    + apply stopped_silent.
+    + apply stopped_silent.
+    + apply IH, Hrest.
+    + apply IH, Hrest.
+Qed.
+
+(* handlers with any subset of the callbacks: what the user's functions see is
+   the full callback log restricted to the callbacks that exist — OnInitialize
+   (if present) still first and once, the others in event order *)
+Theorem masked_log_is_restriction m is :
+  mrun_masked m is = List.filter (has_cb m) (mrun MWaitReady is).
+Proof. reflexivity. Qed.
+
+Theorem masked_init_first m is c rest : mrun_masked m is = c :: rest ->
+  existsb is_init rest = false.
+Proof.
+  unfold mrun_masked. intros H.
+  destruct (mrun MWaitReady is) as [|c0 l] eqn:Hl; [discriminate|].
+  destruct (init_once_first is c0 l Hl) as [Hc0 Hrest].
+  assert (Hf : forall l', existsb is_init l' = false -> existsb is_init (List.filter (has_cb m) l') = false).
+  { induction l' as [|x l' IHl]; simpl; [reflexivity|]. intros Hx. apply orb_false_iff in Hx. destruct Hx as [Hx1 Hx2].
+    destruct (has_cb m x); simpl; [rewrite Hx1; simpl|]; apply IHl, Hx2. }
+  simpl in H. destruct (has_cb m c0).
+  - injection H as <- <-. apply Hf, Hrest.
+  - specialize (Hf l Hrest). rewrite H in Hf. simpl in Hf. apply orb_false_iff in Hf. tauto.
 Qed.
